@@ -9,7 +9,7 @@
    proofs are in coq/Eval/*Proofs.v. *)
 From Coq Require Import ZArith NArith QArith Reals List Bool.
 From Flocq Require Import IEEE754.BinarySingleNaN.
-From VV Require Import Base.F64 Eval.EvalDefs Eval.EvalProofs Eval.EvalExactProofs Eval.EvalFloatProofs.
+From VV Require Import Base.F64 Eval.EvalDefs Eval.EvalProofs Eval.EvalExactProofs Eval.EvalFloatProofs Eval.EvalMeanProofs.
 Import ListNotations.
 
 (* ================================================================ exact == *)
@@ -205,26 +205,49 @@ Theorem C05_gaussian_bounds : forall tag classes (d d' : list example) (f : fitn
 Proof. exact gaussian_bounds. Qed.
 Print Assumptions C05_gaussian_bounds.
 
-(* ---- PARTIAL: running_mean_finite.
-   Full statement wanted by DESIGN 5.5 (NOT proved):
-     forall errf d, (forall e, In e d -> is_finite (errf e) = true /\ 0 <= B2R (errf e)) ->
-       the running average stays finite (the guard of the repaired
-       sum_of_errors_impl never fires) and lies between the least and the
-       greatest error.
-   Proved instead: the lower half for all inputs (the average is NaN or not
-   negative at every step, which with the guard gives the finite, non
-   positive fitness above), and exactness for single-row data
-   (C05_single_row_fitness_is_minus_error).  Missing: the upper bound
-   avg' <= max(avg, err) in binary64 (needs a Sterbenz / half-ulp case split);
-   the correspondence oracle checks |fitness + exact mean| <= 1e-9 * max error
-   on every generated case instead. *)
-Theorem C05_running_mean_finite_partial : forall (errf : example -> f64) (step : nat) (d : list example),
+(* ---- the binary64 running mean of finite, non negative errors --------------
+   Every intermediate average (the statement holds for every dataset, hence
+   for every prefix) is finite, >= 0 and <= any double B that bounds the
+   errors (take B = the greatest error): the guard added by the repair never
+   fires and the fitness is exactly minus the running average. ------------- *)
+Theorem C05_running_mean_finite : forall (B : f64) (errf : example -> f64) (step : nat) (d : list example),
+  (0 <= B2R B)%R ->
+  (forall e, In e d -> F64.is_finite (errf e) = true /\ (0 <= B2R (errf e) <= B2R B)%R) ->
+  let avg := fst (snd (soe_loop errf step 0 d (F64.zero, F64.zero))) in
+  F64.is_finite avg = true /\ (0 <= B2R avg <= B2R B)%R /\
+  snd (sum_of_errors_impl errf step d) = [F64.neg avg].
+Proof. exact running_mean_finite. Qed.
+Print Assumptions C05_running_mean_finite.
+
+(* no bound needed: finite errors are at most DBL_MAX *)
+Theorem C05_running_mean_finite_all : forall (errf : example -> f64) (step : nat) (d : list example),
+  (forall e, In e d -> F64.is_finite (errf e) = true /\ (0 <= B2R (errf e))%R) ->
+  let avg := fst (snd (soe_loop errf step 0 d (F64.zero, F64.zero))) in
+  F64.is_finite avg = true /\ (0 <= B2R avg)%R /\
+  snd (sum_of_errors_impl errf step d) = [F64.neg avg].
+Proof. exact running_mean_finite_all. Qed.
+Print Assumptions C05_running_mean_finite_all.
+
+(* ---- some example wrong (error not `issmall`, i.e. >= 2^-51) => the fitness
+        is strictly negative, for ANY number of rows (the counter n saturates
+        at 2^53, so err/n never underflows to zero). ------------------------- *)
+Theorem C05_wrong_example_gives_negative_fitness : forall (B : f64) (errf : example -> f64) (d : list example),
+  (0 <= B2R B)%R ->
+  (forall e, In e d -> F64.is_finite (errf e) = true /\ (0 <= B2R (errf e) <= B2R B)%R) ->
+  (exists e, In e d /\ negb (issmall (errf e)) = true) ->
+  exists v, snd (soe_eval errf d) = [v] /\ F64.is_finite v = true /\ (B2R v < 0)%R.
+Proof. exact wrong_gives_negative. Qed.
+Print Assumptions C05_wrong_example_gives_negative_fitness.
+
+(* still true without any finiteness hypothesis: the average is NaN or not
+   negative at every step (this is what makes the guarded result non positive) *)
+Theorem C05_running_mean_never_negative : forall (errf : example -> f64) (step : nat) (d : list example),
   (forall e, In e d -> nn (errf e)) ->
   nn (fst (snd (soe_loop errf step 0 d (F64.zero, F64.zero)))).
 Proof.
   intros errf step d H. exact (proj1 (soe_loop_inv errf step d 0%nat _ H soe_inv_init)).
 Qed.
-Print Assumptions C05_running_mean_finite_partial.
+Print Assumptions C05_running_mean_never_negative.
 
 (* non-vacuity of the hypotheses above *)
 Example C05_float_nonvacuous :
@@ -236,4 +259,13 @@ Example C05_float_nonvacuous :
     = Some ([0%N; 8%N], [F64.to_bits (F64.neg one)]) /\
   option_map (fun r => (map ex_diff (fst r), map F64.to_bits (snd r))) (dyn_slot_eval tag d)
     = Some ([0%N; 8%N], [F64.to_bits (F64.neg one)]).
+Proof. repeat split; vm_compute; reflexivity. Qed.
+
+Example C05_mean_nonvacuous :
+  (* errors 0 (right) and 1 (wrong), bounded by B = 1: fitness -0.5 *)
+  let out := fun i : list pout => match i with x :: _ => x | [] => PVoid end in
+  let d := [mk_example [PDouble one] (PDouble one) 0%N 0%N; mk_example [PDouble two] (PDouble one) 0%N 0%N] in
+  map F64.to_bits (map (mae_err out) d) = [0%Z; F64.to_bits one] /\
+  map negb (map issmall (map (mae_err out) d)) = [false; true] /\
+  map F64.to_bits (snd (soe_eval (mae_err out) d)) = [13826050856027422720%Z].     (* 0xBFE0... = -0.5 *)
 Proof. repeat split; vm_compute; reflexivity. Qed.
